@@ -43,6 +43,10 @@ class Factor:
     def __init__(self, rng, rows, cols, n_inf, square_sizes, allow_one, scalar, log, name, p_zero):
         from pymablock.series import BlockSeries, one, zero
 
+        # elements of one factor of different dtypes (real at some orders, complex / single precision / integer at others)
+        mixed_dtypes = bool(rng.random() < 0.3)
+        self.mixed_dtypes = mixed_dtypes
+
         self.vals = {}
         self.rows, self.cols = rows, cols  # lists of block sizes
         self.log = log
@@ -76,7 +80,20 @@ class Factor:
                     if v == 0:
                         v = zero
                 else:
-                    v = (rng.integers(-4, 5, size=(rows[i], cols[j])) + 1j * rng.integers(-4, 5, size=(rows[i], cols[j]))) / 2
+                    re_, im_ = rng.integers(-4, 5, size=(rows[i], cols[j])), rng.integers(-4, 5, size=(rows[i], cols[j]))
+                    kind_ = int(rng.integers(6)) if mixed_dtypes else 0
+                    if kind_ == 0:
+                        v = (re_ + 1j * im_) / 2
+                    elif kind_ == 1:
+                        v = re_ / 2.0  # float64
+                    elif kind_ == 2:
+                        v = (re_ / 2.0).astype(np.float32)  # exactly representable
+                    elif kind_ == 3:
+                        v = re_.astype(np.int64)
+                    elif kind_ == 4:
+                        v = re_ / 3.0  # float64, not representable in single precision
+                    else:
+                        v = ((re_ + 1j * im_) / 2).astype(np.complex64)
                 self.vals[key] = v
             return self.vals[key]
 
